@@ -101,7 +101,10 @@ pub fn check_at(buf: &[u8], off: usize) -> (Vec<Finding>, bool, &'static str) {
 /// accepts it, every name it reports in the envelope must be the RFC decoding at the position the
 /// independent walker finds, and fixed fields must be read from where the name's in-place bytes end.
 pub fn check_embedded(msg: &[u8], rdata_name_at: Option<usize>) -> (Vec<Finding>, bool, &'static str) {
-    let mk_case = || json!({"kind": "embedded", "msg": hex(msg), "rdata_name_at": rdata_name_at});
+    // large messages are named, not quoted (their artefact is re-created from the generator)
+    let big = msg.len() > 20_000;
+    let hx = || if big { format!("{}... ({} bytes in all)", hex(&msg[..64.min(msg.len())]), msg.len()) } else { hex(msg) };
+    let mk_case = || if big { json!({"kind": "embedded-large", "len": msg.len(), "header": hex(&msg[..12.min(msg.len())])}) } else { json!({"kind": "embedded", "msg": hex(msg), "rdata_name_at": rdata_name_at}) };
     crate::engine::watch_begin(msg);
     let lib = guarded(|| Packet::parse(msg).map(|p| crate::bind::observe(&p)));
     crate::engine::watch_end();
@@ -109,14 +112,14 @@ pub fn check_embedded(msg: &[u8], rdata_name_at: Option<usize>) -> (Vec<Finding>
     let mut out = Vec::new();
     match (lib, w) {
         (Err(p), _) => {
-            out.push(finding(format!("C06|embedded|{}", p.sig()), format!("Packet::parse({}): {:?}", hex(msg), p), mk_case()));
+            out.push(finding(format!("C06|embedded|{}", p.sig()), format!("Packet::parse({}): {:?}", hx(), p), mk_case()));
             (out, true, "panic")
         }
         (Ok(Err(_)), _) => (out, false, "rejected"),
         (Ok(Ok(o)), Err(e)) => {
             out.push(finding(
                 "C06|embedded|accepts-unwalkable",
-                format!("Packet::parse accepted {}; the envelope walker fails with {:?}", hex(msg), e),
+                format!("Packet::parse accepted {}; the envelope walker fails with {:?}", hx(), e),
                 mk_case(),
             ));
             let _ = o;
@@ -124,10 +127,13 @@ pub fn check_embedded(msg: &[u8], rdata_name_at: Option<usize>) -> (Vec<Finding>
         }
         (Ok(Ok(o)), Ok(w)) => {
             for (i, q) in w.questions.iter().enumerate() {
+                if out.len() >= 12 {
+                    break; // enough evidence for one message
+                }
                 match o.questions.get(i) {
                     Some(lq) => {
                         if lq.name != q.name.name {
-                            out.push(finding("C06|embedded|question-name", format!("question {}: {:?} vs RFC {:?} in {}", i, lq.name, q.name.name, hex(msg)), mk_case()));
+                            out.push(finding("C06|embedded|question-name", format!("question {}: {:?} vs RFC {:?} in {}", i, lq.name, q.name.name, hx()), mk_case()));
                         }
                         if lq.qtype != q.qtype {
                             out.push(finding("C06|embedded|question-cursor", format!("question {}: qtype {} read, {} follows the name's in-place bytes", i, lq.qtype, q.qtype), mk_case()));
@@ -139,9 +145,12 @@ pub fn check_embedded(msg: &[u8], rdata_name_at: Option<usize>) -> (Vec<Finding>
             let lib_rrs: Vec<&crate::refmodel::packet::RefRR> = o.answers.iter().chain(o.authority.iter()).chain(o.additional.iter()).collect();
             if o.opt.is_none() {
                 for (i, r) in w.records.iter().enumerate() {
+                    if out.len() >= 12 {
+                        break; // enough evidence for one message
+                    }
                     if let Some(lr) = lib_rrs.get(i) {
                         if lr.name != r.name.name {
-                            out.push(finding("C06|embedded|owner-name", format!("record {}: owner {:?} vs RFC {:?} in {}", i, lr.name, r.name.name, hex(msg)), mk_case()));
+                            out.push(finding("C06|embedded|owner-name", format!("record {}: owner {:?} vs RFC {:?} in {}", i, lr.name, r.name.name, hx()), mk_case()));
                         }
                         if lr.ttl != r.ttl || lr.rdata.code() != r.rtype {
                             out.push(finding("C06|embedded|owner-cursor", format!("record {}: type/ttl ({}, {}) read, ({}, {}) follow the owner name", i, lr.rdata.code(), lr.ttl, r.rtype, r.ttl), mk_case()));
@@ -152,10 +161,10 @@ pub fn check_embedded(msg: &[u8], rdata_name_at: Option<usize>) -> (Vec<Finding>
                                 for (j, (a, b)) in vals.iter().zip(d.vals.iter()).enumerate() {
                                     let is_name = matches!(b, crate::refmodel::schema::Val::Name(_) | crate::refmodel::schema::Val::Gateway(crate::refmodel::schema::Gw::Domain(_)));
                                     if is_name && a != b {
-                                        out.push(finding("C06|embedded|rdata-name", format!("record {} ({}) field {}: {:?} vs RFC {:?} in {}", i, sch.mnemonic, j, a, b, crate::engine::truncate(&hex(msg), 300)), mk_case()));
+                                        out.push(finding("C06|embedded|rdata-name", format!("record {} ({}) field {}: {:?} vs RFC {:?} in {}", i, sch.mnemonic, j, a, b, crate::engine::truncate(&hx(), 300)), mk_case()));
                                     } else if after_name && a != b {
                                         // parsing of the enclosing element resumes right after the name's in-place bytes
-                                        out.push(finding("C06|embedded|rdata-after-name", format!("record {} ({}) field {} (after an embedded name): {:?} vs reference {:?} in {}", i, sch.mnemonic, j, a, b, crate::engine::truncate(&hex(msg), 300)), mk_case()));
+                                        out.push(finding("C06|embedded|rdata-after-name", format!("record {} ({}) field {} (after an embedded name): {:?} vs reference {:?} in {}", i, sch.mnemonic, j, a, b, crate::engine::truncate(&hx(), 300)), mk_case()));
                                     }
                                     after_name |= is_name;
                                 }
@@ -175,13 +184,13 @@ pub fn check_embedded(msg: &[u8], rdata_name_at: Option<usize>) -> (Vec<Finding>
                         match (&lr.rdata, d) {
                             (crate::refmodel::packet::RefRData::Typed { vals, .. }, Ok(d)) => {
                                 if vals.first() != Some(&crate::refmodel::schema::Val::Name(d.name.clone())) {
-                                    out.push(finding("C06|embedded|rdata-name", format!("NS target {:?} vs RFC {:?} in {}", vals.first(), d.name, hex(msg)), mk_case()));
+                                    out.push(finding("C06|embedded|rdata-name", format!("NS target {:?} vs RFC {:?} in {}", vals.first(), d.name, hx()), mk_case()));
                                 }
                             }
                             (crate::refmodel::packet::RefRData::Typed { vals, .. }, Err(e)) => {
                                 out.push(finding(
                                     format!("C06|embedded|rdata-accepts-{}", err_tag(&e)),
-                                    format!("NS target accepted as {:?}; RFC decoder inside the RDATA: {:?}; msg {}", vals.first(), e, hex(msg)),
+                                    format!("NS target accepted as {:?}; RFC decoder inside the RDATA: {:?}; msg {}", vals.first(), e, hx()),
                                     mk_case(),
                                 ));
                             }
@@ -620,6 +629,8 @@ pub fn run(ctx: &Ctx) {
         ctx.space(&format!("many-step names (decoded by hook): chains of every length 1..={} label-less backward pointers ending at a 1-label name and 1..=700 ending at 126- and 127-label names, 1..=200 hops each adding a label, 0..=130 inline labels closed by a pointer or the root, every pair of label lengths (1..=63, 0..=63) before a pointer, every amount 0..=257 of in-place label bytes (63-byte and one-byte labels) closed by a pointer to a bare root byte / a pointer to a one-label name / the root", max_chain), n_at, "complete");
         let mut msgs = crate::gen::name_shape_messages(ctx.tier.pick(700usize, 2100usize));
         msgs.extend(sized_msgs);
+        // names whose compression pointers lie beyond offset 65536
+        msgs.extend(crate::gen::large_messages());
         let mchunks: Vec<&[Vec<u8>]> = msgs.chunks(64).collect();
         par_shards(ctx, &mchunks, |ms, t: &mut Tally| {
             for m in ms.iter() {
@@ -630,7 +641,7 @@ pub fn run(ctx: &Ctx) {
                 }
                 t.outcome(tag);
                 if tag == "rejected" && crate::refmodel::wire::must_be_accepted(m) {
-                    f.push(finding("C06|embedded|rejects-valid", format!("message whose names are all valid backward-pointer names rejected: {}", crate::engine::truncate(&hex(m), 300)), json!({"kind": "embedded", "msg": hex(m), "rdata_name_at": null, "expect_accept": true})));
+                    f.push(finding("C06|embedded|rejects-valid", format!("message whose names are all valid backward-pointer names rejected: {}", crate::engine::truncate(&hex(m), 300)), if m.len() > 20_000 { json!({"kind": "embedded-large", "len": m.len(), "header": hex(&m[..12])}) } else { json!({"kind": "embedded", "msg": hex(m), "rdata_name_at": null, "expect_accept": true}) }));
                 }
                 // MX exchange: third record, when present and accepted, must be the RFC decoding
                 if !f.is_empty() {
@@ -650,7 +661,7 @@ pub fn run(ctx: &Ctx) {
             }
             t.outcome(tag);
             if tag == "rejected" && crate::refmodel::wire::must_be_accepted(m) {
-                f.push(finding("C06|embedded|rejects-valid", format!("message whose names are all valid backward-pointer names rejected: {}", crate::engine::truncate(&hex(m), 300)), json!({"kind": "embedded", "msg": hex(m), "rdata_name_at": null, "expect_accept": true})));
+                f.push(finding("C06|embedded|rejects-valid", format!("message whose names are all valid backward-pointer names rejected: {}", crate::engine::truncate(&hex(m), 300)), if m.len() > 20_000 { json!({"kind": "embedded-large", "len": m.len(), "header": hex(&m[..12])}) } else { json!({"kind": "embedded", "msg": hex(m), "rdata_name_at": null, "expect_accept": true}) }));
             }
             if !f.is_empty() {
                 ctx.violations(f);
@@ -712,6 +723,21 @@ pub fn run(ctx: &Ctx) {
 }
 
 pub fn replay(case: &Value) -> Vec<Finding> {
+    if case["kind"].as_str() == Some("embedded-large") {
+        let len = case["len"].as_u64().unwrap_or(0) as usize;
+        let head = case["header"].as_str().unwrap_or("").to_string();
+        let mut out = Vec::new();
+        for m in crate::gen::large_messages() {
+            if m.len() == len && hex(&m[..12]) == head {
+                let (mut f, _, tag) = check_embedded(&m, None);
+                if tag == "rejected" && crate::refmodel::wire::must_be_accepted(&m) {
+                    f.push(finding("C06|embedded|rejects-valid", format!("a {}-byte message whose names are all valid backward-pointer names is rejected", m.len()), case.clone()));
+                }
+                out.extend(f);
+            }
+        }
+        return out;
+    }
     match case["kind"].as_str().unwrap_or("") {
         "at" => check_at(&unhex(case["buf"].as_str().unwrap_or("")), case["off"].as_u64().unwrap_or(0) as usize).0,
         "embedded" => {
